@@ -61,7 +61,13 @@ func corpus(pc *propCfg, batchNo int, tier string) []*sdl.Program {
 		return nil
 	}
 	switch pc.ID {
-	case "C02", "C01", "C10":
+	case "C10", "C03":
+		// (C10: the substitution rings first, they are few)
+		if pc.ID == "C03" {
+			return gen.SubstRingCorpus()
+		}
+		return append(gen.SubstRingCorpus(), gen.CycleCorpus(false)...)
+	case "C02", "C01":
 		return gen.CycleCorpus(pc.ID == "C02" && tier == "thorough")
 	}
 	return nil
